@@ -406,6 +406,7 @@ def run(tier):
     rule_R8(res, prog)
     rule_R9(res, prog)
     rule_R10(res, prog)
+    rule_R11(res, prog)
     rule_R1e(res, prog)
     return res.finish()
 
@@ -843,3 +844,137 @@ def rule_R10(res, prog):
     res.instance(rid, "parseClientHelloExtensions: every success path consistent with (ticket EMS = 0, offered EMS = 1) clears "
                       "SSL_FLAGS_RESUMED (%d clearing sites)" % n_clear, esc is None, finding=f_)
     res.floor(rid, 1)
+
+
+def rule_R11(res, prog):
+    """'a session identifier ... that this server issued' names a SESSION: something a completed handshake established, and
+    the cache entry belongs to the connection that registered or resumed it.
+    (a) Every store that makes a cache entry resumable - a non-NULL value into g_sessionTable[..].cipher, a copy into
+        g_sessionTable[..].masterSecret - lies under the branch facts `ssl->hsState == SSL_HS_DONE` (the peer's Finished was
+        verified) and `<owner test>(ssl)` true.
+    (b) Every change of an entry's reference count or contents through a connection's own session id (the functions that
+        derive the index from ssl->sessionId: update / clear) lies under the owner test; matrixRegisterSession and
+        matrixResumeSession acquire entries and are judged by R1 / R3 / R5.
+    (c) The owner test returns non-zero on no path consistent with `resumed from a ticket` (sid != NULL, state USING_TICKET)
+        nor with `TLS 1.3 negotiated`: such connections only echo a client-chosen id."""
+    import re
+    from sa import cfgutil as cu
+    rid = "C14.R11"
+    res.rule(rid, "a cache entry is made resumable only by a completed handshake (hsState == DONE) of the connection that owns it; "
+                  "connections that merely echo a client-chosen id (ticket resumption, TLS 1.3) never touch the table")
+    DONE = prog.const("SSL_HS_DONE")
+    USING = prog.const("SESS_TICKET_STATE_USING_TICKET")
+    V13 = prog.enums.get("v_tls_1_3_any")
+    NEG = prog.enums.get("v_tls_negotiated")
+    MEMW = ("memcpy", "__builtin_memcpy", "__builtin___memcpy_chk", "memmove", "__builtin___memmove_chk")
+
+    def on_table(e):
+        return any(m.get("k") == "var" and m.get("n") == "g_sessionTable" for m in walk(e))
+    owner_fns = set()
+    n_a = n_b = 0
+    for fn in sorted(prog.functions.values(), key=lambda f: f.qname):
+        if not fn.blocks or not fn.relfile.startswith("matrixssl/") or "/test/" in fn.relfile:
+            continue
+        gf = None
+        # index derived from the connection's own id?
+        uses_conn_id = any(m.get("k") == "mem" and m.get("f") == "sessionId" for b_, ln_, m in fn.nodes())
+        for b in fn.blocks:
+            for i, ln, x in cu.block_exprs(b):
+                for m in walk(x):
+                    kind = None
+                    if m.get("k") == "call" and m.get("fn") in MEMW and m.get("a") and on_table(m["a"][0]) and \
+                            any(q.get("k") == "mem" and q.get("f") == "masterSecret" for q in walk(m["a"][0])):
+                        kind = "secret"
+                    elif m.get("k") == "bin" and m["op"] == "=" and (strip(m["l"]) or {}).get("f") == "cipher" and on_table(m["l"]):
+                        r_ = strip(m["r"])
+                        while r_ is not None and r_.get("k") == "cast":
+                            r_ = strip(r_["e"])
+                        if not (r_ is not None and r_.get("k") == "int" and r_["v"] == 0):
+                            kind = "cipher"
+                    elif uses_conn_id and on_table(m.get("l") or m.get("e") or {}) and (
+                            (m.get("k") == "bin" and m["op"] in ("+=", "-=", "=") and (strip(m["l"]) or {}).get("f") == "inUse") or
+                            (m.get("k") == "un" and m.get("op") in ("post++", "post--", "pre++", "pre--") and (strip(m["e"]) or {}).get("f") == "inUse")):
+                        kind = "refcount"
+                    if kind is None:
+                        continue
+                    if fn.name in ("matrixRegisterSession", "matrixResumeSession") and kind == "refcount":
+                        continue        # acquisition of an entry (R1 / R3 / R5)
+                    if fn.name == "matrixResumeSession":
+                        continue        # reads the table into the connection
+                    gf = gf or cu.guard_facts(fn)
+                    facts = gf.get(b["id"], ())
+                    owners = [txt for (txt, tr) in facts if tr and re.match(r"^\w+\(ssl\)$", txt) and
+                              prog.by_name.get(txt[:-5]) and prog.by_name[txt[:-5]][0].relfile == fn.relfile]
+                    done = any((txt == "(ssl->hsState != %d)" % DONE and not tr) or (txt == "(ssl->hsState == %d)" % DONE and tr)
+                               for (txt, tr) in facts)
+                    if kind in ("secret", "cipher"):
+                        n_a += 1
+                        ok = bool(owners) and done
+                        why = []
+                        if not done:
+                            why.append("without the fact ssl->hsState == SSL_HS_DONE (the peer's Finished is not yet verified: a handshake "
+                                       "abandoned after the ServerHello or after ClientKeyExchange leaves a resumable entry - zero or "
+                                       "client-chosen secret, Finished and client authentication skipped)")
+                        if not owners:
+                            why.append("without the owner test (a ticket-resumed or TLS 1.3 connection naming another session's public id "
+                                       "writes its own secret into that entry)")
+                    else:
+                        n_b += 1
+                        ok = bool(owners)
+                        why = ["without the owner test (a connection that only echoes a client-chosen id changes the reference count of the entry those bytes name)"]
+                    for o in owners:
+                        owner_fns.add(o[:-5])
+                    f_ = None
+                    if not ok:
+                        f_ = Finding(PROP, rid, fn.name, "session table %s written %s" % (kind, "outside a completed, owning handshake" if kind != "refcount" else "by a non-owner"),
+                                     "%s:%s %s(): the cache entry's %s is written %s" % (fn.relfile, ln, fn.name, kind, "; ".join(why)),
+                                     file=fn.relfile, line=ln)
+                    res.instance(rid, "%s:%s table %s written under %s" % (fn.name, ln, kind, "DONE + owner test" if kind != "refcount" else "owner test"),
+                                 ok, finding=f_)
+    # (c) the owner test itself
+    for name in sorted(owner_fns):
+        fo = prog.by_name[name][0]
+
+        def nonzero_ret(x):
+            if x.get("k") != "ret" or x.get("e") is None:
+                return False
+            e = strip(x["e"])
+            return not (e is not None and e.get("k") == "int" and e["v"] == 0)
+
+        def contradicts_ticket(b, k):
+            t = b.get("term")
+            if t is None or "c" not in t or len(b["succ"]) != 2:
+                return False
+            for (txt, tr, nd) in cu._cond_atoms(t["c"], k == 0):
+                if txt == "ssl->sid" and not tr:
+                    return True
+                if txt.endswith("sessionTicketState == %d)" % USING) and not tr:
+                    return True
+                if txt.endswith("sessionTicketState != %d)" % USING) and tr:
+                    return True
+            return False
+
+        def contradicts_13(b, k):
+            t = b.get("term")
+            if t is None or "c" not in t or len(b["succ"]) != 2:
+                return False
+            for (txt, tr, nd) in cu._cond_atoms(t["c"], k == 0):
+                m_ = re.search(r"activeVersion & (\d+)\)$", txt)
+                if m_ and V13 and int(m_.group(1)) & V13 and not int(m_.group(1)) & ~V13 and not tr:
+                    return True
+                if m_ and NEG and int(m_.group(1)) == NEG and not tr:
+                    return True         # NGTD_VER(): `version not negotiated yet` is not the state in question
+            return False
+        for what, ex in (("resumed from a session ticket (sid != NULL, sessionTicketState == USING_TICKET)", contradicts_ticket),
+                         ("TLS 1.3 negotiated", contradicts_13)):
+            if what.startswith("TLS 1.3") and not V13:
+                continue
+            esc = cu.escapes(fo, (fo.entry, None), lambda x: False, exempt_edge=ex, target_expr=nonzero_ret)
+            f_ = None
+            if esc is not None:
+                f_ = Finding(PROP, rid, fo.name, "owner test true for a connection that only echoes the client's id",
+                             "%s:%s %s(): a non-zero result is returned (via lines %s) on a path consistent with `%s`: such a connection "
+                             "keeps the client's session id only to echo it, and would update / clear the cache entry those public bytes "
+                             "name" % (fo.relfile, esc[-1][1], fo.name, [p_[1] for p_ in esc[-5:]], what), file=fo.relfile, line=esc[-1][1])
+            res.instance(rid, "%s: zero for `%s`" % (fo.name, what.split(" (")[0]), esc is None, finding=f_)
+    res.floor(rid, 6)      # 4 writer sites + 2 owner-test clauses; without an owner test the writer sites are violations
